@@ -770,12 +770,14 @@ def run(ctx, part):
         def body_pre():
             key = "%s|%s" % (pre, pcls)
             da = env.wr(A, base.P, "A")
-            if not ctx.begin(key, {"P": pd(base.P), "a": da, "table": size}, nontrivial=base.P is not None):
-                return
+            began = ctx.begin(key, {"P": pd(base.P), "a": da, "table": size}, nontrivial=base.P is not None)
+            if not began and ctx.only is None:
+                return                      # this precomputation crashed earlier in the run: skip the family
             sa = env.snap(A)
-            res = R.call(pre, tab, A)
-            ctx.check(not res.caught, key + "|unexpected-error", {"err": res.err})
-            env.unchanged(A, sa)
+            res = R.call(pre, tab, A)       # (in a replay of one of the family's cases the table is still needed)
+            if began:
+                ctx.check(not res.caught, key + "|unexpected-error", {"err": res.err})
+                env.unchanged(A, sa)
             state["ok"] = not res.caught
         guard(body_pre)
         try:
